@@ -223,6 +223,13 @@ CONTAINERS: list[Container] = [
     Container('comprehension.ifs', 'comprehension', 'ifs', E_IFS,
               lambda e: f'{PRE}v = [x for x in y{"".join(" if " + i for i in e)}]{POST}', lambda e: ' '.join('if ' + i for i in e),
               'm.body[1].value.generators[0]', kind='ifs'),
+    # the iterable in grouping parentheses (the first `if` goes BEHIND them), also spread over lines
+    Container('comprehension.ifs(iter in parentheses)', 'comprehension', 'ifs', E_IFS,
+              lambda e: f'{PRE}v = [x for x in ((y)){"".join(" if " + i for i in e)}]{POST}', lambda e: ' '.join('if ' + i for i in e),
+              'm.body[1].value.generators[0]', kind='ifs'),
+    Container('comprehension.ifs(iter in parentheses over lines)', 'comprehension', 'ifs', E_IFS,
+              lambda e: f'{PRE}v = {{x: 1 for x in (\n y\n){"".join(" if " + i for i in e)}}}{POST}', lambda e: ' '.join('if ' + i for i in e),
+              'm.body[1].value.generators[0]', kind='ifs'),
     Container('ListComp.generators', 'ListComp', 'generators', E_GENS,
               lambda e: f'{PRE}v = [x{"".join(" for " + g for g in e)}]{POST}' if e else None, lambda e: ' '.join('for ' + g for g in e),
               'm.body[1].value', min_len=1, kind='gens', one=lambda e: 'for ' + e),
